@@ -655,7 +655,7 @@ fn main() {
     }
     let n_jobs = jobs.len();
     let (shard, nshards) = (cli.shard, cli.nshards);
-    let seeds: u64 = if lean { 1 } else { cli.t(3, 400) };
+    let seeds: u64 = if lean { 1 } else { cli.t(3, 1_500) };
     let reps = vmon::par_for(if lean { 1 } else { cli.threads }, n_jobs as u64, 4, |_| Report::new("C16", "w"), |rep, i| {
         if i % nshards != shard {
             return;
